@@ -239,3 +239,68 @@ func vh_C11_L7_nothing_beyond_the_window_is_tracked() { vh_C01_L4_duplicate_supp
 func vh_C11_L2_skip_covers_several_partial_messages() {
 	vh_C07_L3_skip_covers_several_partial_messages()
 }
+
+// C11.L8: the window that goes on the wire is the real one. (a) The INIT a client sends and
+// the INIT ACK a server returns advertise exactly the configured receive buffer, whatever its
+// size (also below 1500 bytes). (b) With a buffer of 8 or 3000 bytes and one message of
+// 1..7 bytes held, the SACK that is emitted advertises exactly buffer minus bytes held - also
+// when that is less than a packet, less than half the buffer, or a single byte - and after the
+// message has been read the next SACK advertises the whole buffer again.
+func vh_C11_L8_advertised_window_is_exact() {
+	if vPick(2) == 1 {
+		buf := []uint32{1, 1000, 1499, 1500, 70000}[vPick(5)]
+		vHandshakeRecvBuf = buf
+		a := vHandshakeEndpoint(false, false)
+		vHandshakeRecvBuf = 0
+		if vPick(2) == 1 {
+			a.initClient()
+			for _, raw := range vWriterWake(a) {
+				if init, ok := vDecode(raw).chunks[0].(*chunkInit); ok {
+					vassert(init.advertisedReceiverWindowCredit == buf, "the INIT advertises the configured receive buffer")
+					vcover("end")
+				}
+			}
+			return
+		}
+		a.initServer()
+		init := &chunkInit{}
+		init.initiateTag, init.initialTSN = 1+nondetU32()%0xfffffffe, nondetU32()
+		init.numOutboundStreams, init.numInboundStreams = 10, 10
+		init.advertisedReceiverWindowCredit = 1 << 16
+		setSupportedExtensions(&init.chunkInitCommon, false)
+		raw, err := (&packet{sourcePort: 5000, destinationPort: 5000, chunks: []chunk{init}}).marshal(true)
+		vassert(err == nil, "INIT marshals")
+		vInbound(a, raw)
+		for _, out := range vWriterWake(a) {
+			if ack, ok := vDecode(out).chunks[0].(*chunkInitAck); ok {
+				vassert(ack.advertisedReceiverWindowCredit == buf, "the INIT ACK advertises the configured receive buffer")
+				vcover("end")
+			}
+		}
+		return
+	}
+	buf := []uint32{8, 3000}[vPick(2)]
+	a, _ := vNewAssocOpts(vAssocOpts{recvBuf: buf, fixedTSN: true})
+	cum := a.peerLastTSN()
+	k := 1 + vPick(7)
+	vassert(vDeliver(a, vDataChunk(a, cum+1, 4, true, k)) == nil, "DATA ok")
+	window := func() (uint32, bool) {
+		vFireAck(a)
+		for _, raw := range vWriterWake(a) {
+			for _, c := range vDecode(raw).chunks {
+				if sack, ok := c.(*chunkSelectiveAck); ok {
+					return sack.advertisedReceiverWindowCredit, true
+				}
+			}
+		}
+		return 0, false
+	}
+	w, ok := window()
+	vassert(ok && w == buf-uint32(k), "the SACK advertises exactly the buffer minus the bytes held, however little that is")
+	n, _, rerr := a.streams[4].ReadSCTP(make([]byte, 8))
+	vassert(rerr == nil && n == k, "the message is read")
+	vassert(vDeliver(a, vDataChunk(a, cum+1, 4, true, 1)) == nil, "a duplicate makes the receiver acknowledge again")
+	w, ok = window()
+	vassert(ok && w == buf, "once everything has been read the whole buffer is advertised again")
+	vcover("end")
+}
